@@ -310,14 +310,19 @@ def build(chk):
             obj = (chk.M.function('Quadratic', chk.M.quadratic([(1, 2, q)], chk.M.linear([(1, l1)], k))), SymFn([([1, 2], q), ([1], l1), ([], k)]))
         else:
             obj = lin(P, 'o', [1, 2])
-        spec = Inst(objective=obj, vars=[Var(1, 3), Var(2, 3), Var(3, 3)],
+        # 'extra': two more variables (4, 5) that no function of the instance uses are replaced as well, 4 by a function of 5 and then 5 by a
+        # function of 3: replaced variables that occur nowhere (or only inside another dependency) must still be reported
+        extra = P.choose(2) if (not chain and not quadobj) else 0      # only with the plain variant: every further dependency multiplies the explored map orders
+        spec = Inst(objective=obj, vars=[Var(1, 3), Var(2, 3), Var(3, 3)] + ([Var(4, 3), Var(5, 3)] if extra else []),
                     cons=[Con(11, LE, lin(P, 'g', [1, 3]))], removed=[Rem(Con(12, EQ, lin(P, 'r', [2, 1])))])
         inst = B.instance(spec)
         r1 = lin(P, 's1', [2, 3])
         r2 = lin(P, 's2', [3])
+        r4 = lin(P, 's4', [5]) if extra else None
+        r5 = lin(P, 's5', [3]) if extra else None
         # state values concrete (dyadic) so that the identities stay of degree 2 in the symbolic coefficients
         x2, x3 = [(fin(Fraction(3, 2)), fin(Fraction(-5, 4))), (fin(Fraction(0)), fin(Fraction(7, 8))), (fin(Fraction(-2)), fin(Fraction(0)))][P.choose(3)]
-        reps_steps = [[(1, r1)]] + ([[(2, r2)]] if chain else [])
+        reps_steps = [[(1, r1)]] + ([[(2, r2)]] if chain else []) + ([[(4, r4)], [(5, r5)]] if extra else [])
         given = [(3, x3)] + ([] if chain else [(2, x2)])
 
         def witness(model):
@@ -329,6 +334,9 @@ def build(chk):
             if chain:
                 asg[2] = float(fn_eval(chk.conv.to_dict(r2[0], MSGF, model), {k: F(v) for k, v in asg.items()}))
             asg[1] = float(fn_eval(chk.conv.to_dict(r1[0], MSGF, model), {k: F(v) for k, v in asg.items()}))
+            if extra:
+                asg[5] = float(fn_eval(chk.conv.to_dict(r5[0], MSGF, model), {k: F(v) for k, v in asg.items()}))
+                asg[4] = float(fn_eval(chk.conv.to_dict(r4[0], MSGF, model), {k: F(v) for k, v in asg.items()}))
             exp = c05.concrete_expected(idict, {'entries': list(asg.items())})
 
             def judge(res):
@@ -353,6 +361,9 @@ def build(chk):
         if chain:
             asg[2] = FV('fin', r2[1].denote(lambda i: asg[i].r))
         asg[1] = FV('fin', r1[1].denote(lambda i: asg[i].r))
+        if extra:
+            asg[5] = FV('fin', r5[1].denote(lambda i: asg[i].r))
+            asg[4] = FV('fin', r4[1].denote(lambda i: asg[i].r))
         exp = c05.expected(spec, list(asg.items()))
         if res.vname != 'Ok':
             P.fail('evaluate-ok', witness)
